@@ -2080,6 +2080,31 @@ fn small_values(depth: usize) -> Vec<Yaml> {
 
 pub fn run_c10(ctx: &mut Ctx, _known: &Known) {
     ctx.exhaustive = true;
+    // the recorded finding of this property, on its recorded witness: `f: {all(k): ['a*', '?b$']}` over
+    // an array of objects is true for [{k: ax}, {k: zb}] although NO element satisfies the block. It
+    // counts as known only while the faithful model reproduces the reply; the two other documents
+    // of the witness (one element that satisfies both members; an object that does not) must be right.
+    for (name, c) in corpus_cases() {
+        if name != "nested_all_split" {
+            continue;
+        }
+        let (ex, parsed) = run_rule_case(ctx, &c, false);
+        if let Some(p) = parsed {
+            if p.load == "ok" {
+                let got: Vec<bool> = tri_of(&p, 0).iter().map(|t| t == "T").collect();
+                let want = [false, true, false];
+                for j in 0..got.len().min(3) {
+                    if got[j] != want[j] {
+                        if j == 0 && ex.agree && ex.supported && _known.by_witness("C10", "nested_all_split").is_some() {
+                            *ctx.known_hits.entry("KF-C10-nested-all".into()).or_insert(0) += 1;
+                        } else {
+                            ctx.violation("oracle", &format!("nested all()-block over an array, document #{}: engine {}, 'some element satisfies the block' gives {}", j, got[j], want[j]), &ex, &rule_yaml(&c), true);
+                        }
+                    }
+                }
+            }
+        }
+    }
     crate::suites3::rows_field_twice(ctx, "C10");
     crate::suites3::null_members_missing_path(ctx, "C10");
     let depth = if ctx.tier == "thorough" { 3 } else { 2 };
